@@ -18,10 +18,27 @@ def rich_pair(rnd):
         df, kinds = vs.rich_frame(rnd)
     act = df.copy(deep=True)
     cols = list(df.columns)
-    mut = rnd.choice(['copy', 'copy', 'cell', 'null', 'name', 'order', 'droprow', 'addrow', 'addcol', 'dropcol', 'type'])
+    mut = rnd.choice(['copy', 'copy', 'cell', 'null', 'name', 'order', 'droprow', 'addrow', 'addcol', 'dropcol', 'type',
+                      'relabel', 'rowswap'])
     expect = 'fail'
     if mut == 'copy':
         expect = 'pass'
+    elif mut == 'relabel':
+        # the same values in the same positions under other row labels (a filtered subset, a string index):
+        # the row index is not one of the things compared
+        if len(df) == 0:
+            return None
+        act.index = rnd.choice([list(range(5, 5 + len(df))), ['r%d' % i for i in range(len(df))], list(range(len(df) - 1, -1, -1))])
+        expect = 'pass'
+    elif mut == 'rowswap':
+        # rows in another order that still carry their original labels: corresponding values are those in the same position
+        if len(df) < 2:
+            return None
+        act = df.iloc[::-1].copy()
+        same = all(all((pd.isna(a) and pd.isna(b)) or (not pd.isna(a) and not pd.isna(b) and a == b)
+                       for a, b in zip(df[c].tolist(), act[c].tolist())) for c in cols)
+        if same:
+            return None
     elif mut in ('cell', 'null'):
         if len(df) == 0:
             return None
